@@ -1166,14 +1166,32 @@ func TestCheck(t *testing.T) {
 	runBasic(t, r)
 	runForward(t, r)
 	runCombined(t, r)
+	// development aid: C08_SKIP=tolerance,reload-seq,hmac,reload-sched leaves parts out (the run is then marked non-exhaustive)
+	skip := func(part string) bool {
+		for _, p := range strings.Split(os.Getenv("C08_SKIP"), ",") {
+			if p == part {
+				r.NotExhaustive("part " + part + " skipped by C08_SKIP")
+				return true
+			}
+		}
+		return false
+	}
 	t0 := time.Now()
-	runTolerance(t, r)
+	if !skip("tolerance") {
+		runTolerance(t, r)
+	}
 	t1 := time.Now()
-	runReloadSequential(t, r)
+	if !skip("reload-seq") {
+		runReloadSequential(t, r)
+	}
 	t2 := time.Now()
-	runHMAC(t, r, deadline)
+	if !skip("hmac") {
+		runHMAC(t, r, deadline)
+	}
 	t3 := time.Now()
-	runReloadSched(t, r)
+	if !skip("reload-sched") {
+		runReloadSched(t, r)
+	}
 	r.Set("wall_parts", fmt.Sprintf("tolerance=%.1fs reload-seq=%.1fs hmac=%.1fs reload-sched=%.1fs", t1.Sub(t0).Seconds(), t2.Sub(t1).Seconds(), t3.Sub(t2).Seconds(), time.Since(t3).Seconds()))
 
 	r.Set("rule", "complete finite products, one real request per element through the ingress handler wired by startServers from DSL text. "+
